@@ -1,6 +1,6 @@
 """C01 - interpreted programs behave exactly like the same program compiled by gc (DESIGN 7/C01).
 
-Eight sub-parts, one check (the report format of Stop / Fatal / PanicError chains, PanicFlow, lives under C12):
+Nine sub-parts, one check (the report format of Stop / Fatal / PanicError chains, PanicFlow, lives under C12):
   intalu     IntALU.tla     integer arithmetic at every width / shifts / conversions / division faults
   initorder  InitOrder.tla  package-level initialisation order and initialisation cycles
   conv       StrConv.tla    int -> string, []byte / []rune <-> string
@@ -13,6 +13,9 @@ Eight sub-parts, one check (the report format of Stop / Fatal / PanicError chain
   misc       GoMisc.tla     variadic calls, select with one ready case, uses of one constant at several types
   pkginit    PkgInit.tla    programs of several packages: every import graph over p, q, r, main, the order in which the
                             packages, their variables and their init functions are initialised; import cycles
+  godata     GoData.tla     value semantics of composite data: a store model of arrays, slices (backing array, offset, len, cap),
+                            maps, structs, pointers and closures; straight-line programs in which every operation of an
+                            alphabet runs directly after every operation, the whole observable state printed after each
 The reference is the TLA+ specification; gc is only the oracle guard on the violation path.
 """
 import json, os, re, random, shutil, subprocess, concurrent.futures as cf
@@ -22,10 +25,10 @@ from rig import Infra
 META = {
     "title": "Interpreted programs behave like gc",
     "engine": "GoSem",
-    "technique": "TLA+ reference of Go semantics (IntALU over BigInt, InitOrder, StrConv over Utf8, the MiniGo interpreter incl. call frames with defer / panic / recover, GoMisc: variadic calls, select, constant uses, PkgInit: initialisation of a program of several packages) + implementation-shaped models of the VM's per-kind truncation switches, of the checker's declaration sort (sortDeclarations / funcVarsResolved / checkDepsPath), of the emitter's list of init functions (emitPackage / emitImport) and of the import stack of ParseProgram, model-checked exhaustively by TLC; TLC exports the case spaces - for MiniGo it runs every program to completion to obtain its output, it enumerates every defer/panic/recover program (tree of functions) up to a number of nodes and every unlabelled break / continue at every position of nested for / range / switch / select statements up to a nesting depth; a Go driver writes each case as Go source (in up to four source forms; a program of several packages as go.mod + one directory per package), builds and runs it with the real scriggo.Build/Run; a TLC Trace spec judges every observation against the reference; gc is consulted only for failing cases (oracle guard)",
+    "technique": "TLA+ reference of Go semantics (IntALU over BigInt, InitOrder, StrConv over Utf8, the MiniGo interpreter incl. call frames with defer / panic / recover, GoMisc: variadic calls, select, constant uses, PkgInit: initialisation of a program of several packages, GoData: a store model of arrays / slices / maps / structs / pointers / closures with an alphabet of operations on them) + implementation-shaped models of the VM's per-kind truncation switches, of the checker's declaration sort (sortDeclarations / funcVarsResolved / checkDepsPath), of the emitter's list of init functions (emitPackage / emitImport) and of the import stack of ParseProgram, model-checked exhaustively by TLC; TLC exports the case spaces - for MiniGo it runs every program to completion to obtain its output, it enumerates every defer/panic/recover program (tree of functions) up to a number of nodes and every unlabelled break / continue at every position of nested for / range / switch / select statements up to a nesting depth, and it builds the straight-line programs over composite data in which every operation of the GoData alphabet follows every operation; a Go driver writes each case as Go source (in up to four source forms; a program of several packages as go.mod + one directory per package), builds and runs it with the real scriggo.Build/Run; a TLC Trace spec judges every observation against the reference; gc is consulted only for failing cases (oracle guard)",
     "level": "model_checking",
-    "level_text": "TLC model-checks Impl(op,kind,x,y) against Ref for all 11 integer kinds x 17 binary + 2 unary operators + conversions x boundary operands x shift counts of every count kind (register and constant-operand forms); the declaration-sort algorithm of the checker, under both textual orders of the dependencies, against the Go spec's initialisation algorithm for all dependency graphs over 3 variables + 1 function with at most 3 edges and all 'through functions' graphs (no direct variable -> variable edge; chains, recursion and mutual recursion of functions) over 3 variables + 2 functions with at most 5 edges (thorough: all 65 536 graphs over 3 + 1, all graphs over 4 + 2 with at most 3 edges, through-functions graphs with at most 6 edges); the same cases are run through the real Build/Run in up to four source forms each and every printed value / panic message / build outcome is judged by the TLA+ reference. MiniGo programs (labelled break / continue across for, range and switch, switch/fallthrough, goto, closures, arrays/structs/slices/maps, strings, run-time faults, operand evaluation order of println) are interpreted by TLC and their output compared with the real run; every defer/panic/recover program of at most 5 (thorough 6) nodes - nested calls, deferred calls, panics raised while panicking, recover at every position - is enumerated and interpreted by TLC and run as top-level functions and as function literals; every nest of 1..2 (thorough 1..3) statements out of three-clause for / range over a string / range over a slice / switch / select { default } (nests of the greatest depth: one of the two range kinds per level, alternating with the seed) with one unlabelled break or continue (continue where a loop is around it), bare or inside an if on the loop variables, at every position of every body (before the first print, after it, after the nested statement, at the end), every body printing the loop variables before and after the nested statement and the program printing a line after the nest, is enumerated and interpreted by TLC (the Go specification's 'innermost for, switch, or select statement' / 'innermost enclosing for loop') and run; every variadic call shape (0..2 fixed, 0..3 variadic arguments or a nil / empty / non-empty slice spread), every select over 2..3 buffered channels with exactly one (or no) ready case, and every sequence of up to 3 (thorough 4) uses of one bool / int constant at different types is run and judged. Programs of several packages: every acyclic import graph over the packages p, q, r and main (370 graphs, every order of the import declarations: chains, fans, diamonds, a package imported directly and through another) with 2 (thorough 24) drawn decorations each - 0..2 variables per package whose initialisers print and read a variable of an imported package or of their own package, 0..2 init functions per package that print and write a variable of an imported package, main prints every final value - in two source forms; TLC model-checks the emitter's construction of the list of init functions against the Go specification's order (imported packages first, every package once, variables before init functions, main last; independent packages in the order of their import paths, the Go 1.21 rule, which the construction does not follow: model counterexamples, and the only output the judge accepts is the one of that order); every import graph with a cycle (1290; the quick tier runs a third of them, chosen by the seed) must be rejected by Build.",
-    "level_note": "Trusted: TLC, lib/BigInt.tla and lib/Utf8.tla, the concretiser (record -> Go source by string templates) and the print capture of the driver. gc is not on the passing path. The final outcome judged for a panic is the message of the newest panic (PanicError.String); the chain format and Stop/Fatal are C12's. Not covered: floating point and complex numbers, print formatting of floats, the // run corpus, goroutines and unbuffered channels (C14), methods on Scriggo-defined types and generics (outside Scriggo's subset), runtime.Goexit, panic values other than int and run-time errors, select statements with communication clauses inside loops (the select of the nests has only a default clause), type switches and range over maps / channels / integers / functions as the statements of a nest, goto out of a nest, named results modified by deferred closures (where the Go specification's wording on recover() leaves room - a deferred call run by an ordinary return while an outer panic is in progress - the reference follows gc: nil; the reference was audited against gc on 572 programs of the defer/panic/recover space), register-allocation pressure beyond the generated programs; for programs of several packages: packages of more than one file, more than 4 packages, blank / dot / renamed imports, native packages.",
+    "level_text": "TLC model-checks Impl(op,kind,x,y) against Ref for all 11 integer kinds x 17 binary + 2 unary operators + conversions x boundary operands x shift counts of every count kind (register and constant-operand forms); the declaration-sort algorithm of the checker, under both textual orders of the dependencies, against the Go spec's initialisation algorithm for all dependency graphs over 3 variables + 1 function with at most 3 edges and all 'through functions' graphs (no direct variable -> variable edge; chains, recursion and mutual recursion of functions) over 3 variables + 2 functions with at most 5 edges (thorough: all 65 536 graphs over 3 + 1, all graphs over 4 + 2 with at most 3 edges, through-functions graphs with at most 6 edges); the same cases are run through the real Build/Run in up to four source forms each and every printed value / panic message / build outcome is judged by the TLA+ reference. MiniGo programs (labelled break / continue across for, range and switch, switch/fallthrough, goto, closures, arrays/structs/slices/maps, strings, run-time faults, operand evaluation order of println) are interpreted by TLC and their output compared with the real run; every defer/panic/recover program of at most 5 (thorough 6) nodes - nested calls, deferred calls, panics raised while panicking, recover at every position - is enumerated and interpreted by TLC and run as top-level functions and as function literals; every nest of 1..2 (thorough 1..3) statements out of three-clause for / range over a string / range over a slice / switch / select { default } (nests of the greatest depth: one of the two range kinds per level, alternating with the seed) with one unlabelled break or continue (continue where a loop is around it), bare or inside an if on the loop variables, at every position of every body (before the first print, after it, after the nested statement, at the end), every body printing the loop variables before and after the nested statement and the program printing a line after the nest, is enumerated and interpreted by TLC (the Go specification's 'innermost for, switch, or select statement' / 'innermost enclosing for loop') and run; every variadic call shape (0..2 fixed, 0..3 variadic arguments or a nil / empty / non-empty slice spread), every select over 2..3 buffered channels with exactly one (or no) ready case, and every sequence of up to 3 (thorough 4) uses of one bool / int constant at different types is run and judged. Programs of several packages: every acyclic import graph over the packages p, q, r and main (370 graphs, every order of the import declarations: chains, fans, diamonds, a package imported directly and through another) with 2 (thorough 24) drawn decorations each - 0..2 variables per package whose initialisers print and read a variable of an imported package or of their own package, 0..2 init functions per package that print and write a variable of an imported package, main prints every final value - in two source forms; TLC model-checks the emitter's construction of the list of init functions against the Go specification's order (imported packages first, every package once, variables before init functions, main last; independent packages in the order of their import paths, the Go 1.21 rule, which the construction does not follow: model counterexamples, and the only output the judge accepts is the one of that order); every import graph with a cycle (1290; the quick tier runs a third of them, chosen by the seed) must be rejected by Build. Composite data (GoData): a fixed set of variables - an int, two [3]int arrays, three []int slices, two map[int]int, two structs with an array field, a *int, a *struct, a func() - and an alphabet of 93 operations on them: array assignment and parameter passing (copies), writes through a pointer to an array, slice expressions s[i:j] and s[i:j:k] on slices and on an array variable, element writes, append in place / reallocating / through a 3-index slice / of a slice to itself / into another variable, copy with overlapping operands, nil and empty slices, map assignment (aliasing), insertion, delete, reads and writes of a nil map, struct assignment and field updates through a copy and through a pointer, pointers to a variable, an array element, a slice element and a struct field, closures that refer to variables and closures over copied parameters, range over an array (a copy), over a pointer to an array, over an array field and over a slice with writes to the elements and to the slice variable inside the body; for every ordered pair (x, y) of operations (quick: a third of the pairs, chosen by the seed) the program `drawn prefix; x; y` (quick: 1 prefix of 1 operation per pair, thorough: 6 prefixes of 2 operations) is run by the TLA+ store model and by the real Build/Run, the whole observable state (every variable, len, nil-ness, cap where the language fixes it, the pointees) being printed before the first and after every operation; the judge (TLC) runs the reference again on the logged operations and compares every line and the class of the run-time panic. The reference never observes what the language leaves open: the capacity after a growing append is a lower bound only, programs whose output would depend on it are not generated (counted), maps are only read by key.",
+    "level_note": "Trusted: TLC, lib/BigInt.tla and lib/Utf8.tla, the concretiser (record -> Go source by string templates) and the print capture of the driver. gc is not on the passing path. The final outcome judged for a panic is the message of the newest panic (PanicError.String); the chain format and Stop/Fatal are C12's. Not covered: floating point and complex numbers, print formatting of floats, the // run corpus, goroutines and unbuffered channels (C14), methods on Scriggo-defined types and generics (outside Scriggo's subset), runtime.Goexit, panic values other than int and run-time errors, select statements with communication clauses inside loops (the select of the nests has only a default clause), type switches and range over maps / channels / integers / functions as the statements of a nest, goto out of a nest, named results modified by deferred closures (where the Go specification's wording on recover() leaves room - a deferred call run by an ordinary return while an outer panic is in progress - the reference follows gc: nil; the reference was audited against gc on 572 programs of the defer/panic/recover space), register-allocation pressure beyond the generated programs; for programs of several packages: packages of more than one file, more than 4 packages, blank / dot / renamed imports, native packages; for composite data: element types other than int, arrays of arrays / of structs, slices of slices, maps with composite values, struct fields of slice / map / pointer type, embedded structs, methods, strings, channels, interface values holding composite data, map iteration, programs longer than 4 operations, package-level variables (the GoData reference was compared with gc on every program of a quick-tier run, 2880 programs, during development: no difference).",
     "design_ref": "7/C01",
 }
 FAMS = ["gosem"]
@@ -33,10 +36,23 @@ FAMS = ["gosem"]
 # Genuine defects demonstrated on the unchanged tree (see the report of this family); the integrator
 # fixes them in /repo or moves the entries into known-findings.json.
 _I83 = " (upstream issue open2b/scriggo#83: labelled break and continue are not implemented; emitter_statements.go case *ast.Break / *ast.Continue)"
-PROPOSED_KNOWN = []   # integrated into known-findings.json
+_GD_PA = " (emitAssignmentNode, emitter_statements.go case *ast.Index: the checker rewrites pa[i] into (*pa)[i], the emitter evaluates *pa - a copy of the array - and stores the element into the copy; minimal: a := [3]int{1, 2, 3}; p := &a; p[1] = 9; println(a[1]) prints 2, gc 9)"
+_GD_RA = " (emitForRange, emitter_statements.go: the register of the array variable / field itself is given to OpRange, which reads the elements while the body runs; Go: the range expression is evaluated once, an array operand is copied when the second iteration variable is present; minimal: a := [3]int{1, 2, 3}; n := 0; for k, v := range a { if k == 0 { a[2] = 96 }; n += v }; println(n) prints 99, gc 6)"
+_GD_RS = " (run.go OpMove allocates new storage for an array / struct value and puts it into the variable's register; only a variable whose address is taken as &v or that a closure captures is 'indirect' and written in place - checker_expressions.go marks nothing for &v[i], &v.f, v[:]; minimal: a := [3]int{1, 2, 3}; t := a[:]; a = [3]int{4, 5, 6}; println(t[0]) prints 1, gc 4)"
+_GD_WHAT = {
+    "write-through-array-pointer-lost": "an assignment to an element of an array through a pointer to the array (pa[i] = v, (*pa)[i] = v, pa[i] += v, pa[i]++) is lost: the array keeps its old element" + _GD_PA,
+    "range-over-array-not-a-copy": "for k, v := range a over an array variable or an array field of a struct variable does not iterate over a copy: an assignment to a later element in the body is seen by the iteration value" + _GD_RA,
+    "assignment-replaces-storage": "after a slice of an array variable (a[:]) or a pointer to an element / a field of an array or struct variable (&a[i], &q.f, &q.a[i]) was taken, an assignment to the whole variable (a = b, a = [3]int{...}, q = p, q = *pt) does not write into the variable's storage but replaces it: the slice / the pointer keeps seeing the old contents, and later writes through them do not reach the variable" + _GD_RS,
+}
+_GD_ORDER = ["assignment-replaces-storage", "write-through-array-pointer-lost", "range-over-array-not-a-copy"]
+# one entry per defect, and one per combination of them that a single program can run into (the judge names the
+# deviations of the reference store model under which the observed output is exactly reproduced: GdLike, Trace_GoSem.tla)
+PROPOSED_KNOWN = [{"kind": "known", "signature": {"fam": "godata", "cause": "wrong-output", "like": "+".join(c)},
+                   "what": ("a program that runs into %d defects: " % len(c) if len(c) > 1 else "") + "; and: ".join(_GD_WHAT[k] for k in c)}
+                  for c in ([[k] for k in _GD_ORDER] + [[_GD_ORDER[0], _GD_ORDER[1]], [_GD_ORDER[0], _GD_ORDER[2]], [_GD_ORDER[1], _GD_ORDER[2]], _GD_ORDER])]
 
 BASE = {"intalu": 0, "initorder": 1000000, "conv": 2000000, "minigo": 3000000, "deferflow": 4000000, "misc": 5000000,
-        "pkginit": 6000000, "nest": 7000000}
+        "pkginit": 6000000, "nest": 7000000, "godata": 8000000}
 NO_ALT = {"out": [], "outcome": "none", "msg": []}
 NO_NEST = {"jump": "", "at": "", "encl": ""}
 
@@ -724,8 +740,49 @@ def part_pkginit(ctx):
     return cases, info
 
 
+def part_godata(ctx):
+    """Straight-line programs over composite data (GoData.tla): for every ordered pair (x, y) of operations of the alphabet
+    (quick: one pair out of three, chosen by the seed) `pre` programs  prefix ; x ; y  with a drawn prefix of `prelen`
+    operations; TLC runs the reference store model on each, checks the sanity invariants and prints one case per program."""
+    pre, prelen, step = ctx.pick((1, 1, 3), (6, 2, 1))
+    wd = ctx.stage("mc_godata", FAMS)
+    (wd / "GoDataCfg.tla").write_text("---- MODULE GoDataCfg ----\nGdSeed == %d\nGdPre == %d\nGdPreLen == %d\nGdStep == %d\n====\n" % (ctx.seed, pre, prelen, step))
+    invs = ["GdShape", "GdStoreSane", "GdTextsUnique"]
+    rig.write_cfg(wd / "MC_GoData.cfg", invariants=invs)
+    r = ctx.tlc(wd, "MC_GoData", workers=ctx.pick(4, max(2, rig.NCPU // 2)), timeout=1500, must_pass=True)
+    cases = []
+    for l in r.out.splitlines():
+        if l.startswith('<<"CASE", "') and l.endswith('">>'):
+            cases.append(json.loads(json.loads(l[len('<<"CASE", '):-2])))
+    cases.sort(key=lambda c: c["id"])
+    progs = r.distinct // 2
+    if not cases or len({c["id"] for c in cases}) != len(cases) or r.distinct % 2 or len(cases) > progs:
+        raise Infra(f"MC_GoData exported {len(cases)} cases, {r.distinct} states (two per program expected, no duplicate ids): {wd}/MC_GoData.out")
+    ops, pairs, kinds, reached = set(), set(), {}, set()
+    for c in cases:
+        e = c.pop("exp")
+        c["lines"], c["ends"] = e["lines"], e["outcome"] + (":" + e["cls"] if e["cls"] else "")
+        ops.update(c["ops"])
+        pairs.add((c["ops"][-2], c["ops"][-1]))
+        if c["lines"] >= len(c["ops"]):               # the last operation was reached (it completed or it is the one that panics)
+            reached.add((c["ops"][-2], c["ops"][-1]))
+        for k in c.pop("kinds"):
+            kinds[k] = kinds.get(k, 0) + 1
+    ends = {}
+    for c in cases:
+        ends[c["ends"]] = ends.get(c["ends"], 0) + 1
+    info = {"states": r.distinct, "transitions": r.generated, "mc_wall_s": round(r.wall, 1), "mc_invariants": invs,
+            "prefixes_per_pair": pre, "prefix_operations": prelen, "one_pair_out_of": step, "operations_per_program": prelen + 2,
+            "programs": progs, "cases": len(cases), "dropped_output_would_depend_on_an_unspecified_capacity": progs - len(cases),
+            "alphabet_operations_used": len(ops), "ordered_pairs_of_operations": len(pairs),
+            "ordered_pairs_whose_second_operation_is_reached": len(reached),
+            "programs_by_outcome_in_the_reference": ends, "operation_kinds_applied": kinds}
+    return cases, info
+
+
 PARTS = [("intalu", part_intalu), ("initorder", part_initorder), ("conv", part_conv), ("minigo", part_minigo),
-         ("deferflow", part_deferflow), ("nest", part_nest), ("misc", part_misc), ("pkginit", part_pkginit)]
+         ("deferflow", part_deferflow), ("nest", part_nest), ("misc", part_misc), ("pkginit", part_pkginit),
+         ("godata", part_godata)]
 MISC_FAMS = ("variadic", "select", "constuse")
 
 
@@ -743,6 +800,8 @@ def case_from_obs(o):
         return {k: v for k, v in o.items() if k not in ("outcome", "out", "msg", "src", "raw")}
     if o["fam"] == "pkginit":
         return {k: o[k] for k in ("id", "fam", "imps", "vars", "inits", "forms", "g121")}
+    if o["fam"] == "godata":
+        return {k: o[k] for k in ("id", "fam", "ops", "capk", "lines", "ends")}
     raise Infra("unknown family in observation: %r" % o.get("fam"))
 
 
@@ -767,6 +826,9 @@ def sample(o):
     if o["fam"] == "pkginit":
         return {"fam": "pkginit", "imports (p=1, q=2, r=3, main=4)": o["imps"], "variables read": o["vars"], "init functions write": o["inits"],
                 "source_form": o["form"], "outcome": o["outcome"], "printed": o["out"], "msg": o["msg"][:200]}
+    if o["fam"] == "godata":
+        return {"fam": "godata", "operations": o["ops"], "outcome": o["outcome"], "msg": rig.b2s(o["msg"])[:120],
+                "printed (i a b | s t u: nil len [cap] elems | m n: nil len [1] [2] [3] | p q | pi | pt)": [" ".join(map(str, l)) for l in o["out"]]}
     return {k: v for k, v in o.items() if k not in ("src", "raw")}
 
 
@@ -794,6 +856,8 @@ def nontrivial(o):
         return len(set(o["uses"])) >= 2
     if o["fam"] == "pkginit":     # two packages or more have something to initialise
         return sum(1 for i in range(len(o["imps"])) if o["vars"][i] or o["inits"][i]) >= 2
+    if o["fam"] == "godata":      # the program ran to its end (every operation took effect on the state left by the one before)
+        return o["ends"] == "ok"
     return True
 
 
@@ -841,6 +905,13 @@ def corrupt(o):
         else:
             o["out"][-1][-1] += 1
         return o
+    if o["fam"] == "godata":          # one number of the last printed line is off by one (or: the program printed nothing)
+        if o["out"] and o["out"][-1]:
+            k = (o["id"] * 7) % len(o["out"][-1])
+            o["out"][-1][k] += 1
+        else:
+            o["outcome"], o["out"] = "ok", [[1]]
+        return o
     if o["fam"] == "initorder":
         if o["outcome"] == "ok" and o["order"]:
             o["order"][0] = o["order"][0] % o["nv"] + 1 if o["nv"] > 1 else 7
@@ -860,7 +931,7 @@ def judge(ctx, step, recs, shards=1, per=2000):
     parts = [recs[i:i + size] for i in range(0, len(recs), size)]
 
     def slim(o):   # what the Trace spec reads (the program text of a minigo case is not judged: exp carries its observable)
-        o = {k: v for k, v in o.items() if k not in ("prog", "forms", "src", "raw", "g121")}
+        o = {k: v for k, v in o.items() if k not in ("prog", "forms", "src", "raw", "g121", "capk", "lines", "ends")}
         if o["fam"] == "minigo":
             o.setdefault("alt", NO_ALT)
             o.setdefault("nest", NO_NEST)
@@ -880,7 +951,7 @@ def judge(ctx, step, recs, shards=1, per=2000):
     return out
 
 
-def gc_raw(ctx, src, n):
+def gc_raw(ctx, src, n, strip=False):
     """Oracle guard: build and run src with gc; returns the normalised output text."""
     d = ctx.work / "gc" / str(n)
     d.mkdir(parents=True, exist_ok=True)
@@ -897,7 +968,10 @@ def gc_raw(ctx, src, n):
                            text=True, errors="replace", timeout=300)
     except subprocess.TimeoutExpired:
         return None
-    return normalise_gc(p.stdout, p.returncode)
+    g = normalise_gc(p.stdout, p.returncode)
+    if strip:        # godata programs print every token followed by a blank: the driver's text has none at the end of a line
+        g = "".join(l.rstrip() + "\n" for l in g.splitlines())
+    return g
 
 
 def split_files(src):
@@ -984,7 +1058,7 @@ def run(ctx, replay_cases=None):
         parts=infos,
         evaluations=len(allobs), traces_validated_against_impl=len(allobs),
         distinct_nontrivial=len({json.dumps(case_from_obs(o), sort_keys=True) + str(o.get("form", "")) for o in allobs if nontrivial(o)}),
-        rule="minigo: seeded programs of 11 shapes (labelled loops, labelled break / continue across for / range / switch, switch/fallthrough, goto, closures, array/struct/pointer values, slice aliasing, maps, strings, run-time faults, println operand order), expected output computed by TLC; deferflow: every tree of functions over the nodes call / defer / recover / panic with at most max_nodes nodes, all of whose nodes run, interpreted by TLC, in the source forms named / literal; nest: every program of MiniGoNest.tla (kinds of the nested statements x break / continue x level x position x bare / inside an if) up to max_nested_statements, interpreted by TLC; non-trivial = more than one printed line or a panic. conv: all conversions of the 12-value rune set / strings of <= MaxPieces well- and ill-formed UTF-8 pieces; non-trivial = a non-ASCII value is involved. initorder: every dependency graph of the bounded spaces, one program per textual order of the dependencies; non-trivial = at least one edge. intalu: TLC-exported space (all kinds x operators x boundary operands x shift counts), each case in the source forms var / literal operand / op-assignment / if-condition; non-trivial = result wrapped, shifted out, divided, converted or panicked. variadic / select / constuse: the spaces of MC_GoMisc.tla, one program per case; non-trivial = nothing or a slice passed for the variadic parameter / every select / the constant used at two types or more. pkginit: every import graph over p, q, r, main (with and without cycles, every order of the import declarations) x drawn decorations, in the source forms separate / grouped import declarations; non-trivial = two packages or more have variables or init functions. One record per (case, form).",
+        rule="minigo: seeded programs of 11 shapes (labelled loops, labelled break / continue across for / range / switch, switch/fallthrough, goto, closures, array/struct/pointer values, slice aliasing, maps, strings, run-time faults, println operand order), expected output computed by TLC; deferflow: every tree of functions over the nodes call / defer / recover / panic with at most max_nodes nodes, all of whose nodes run, interpreted by TLC, in the source forms named / literal; nest: every program of MiniGoNest.tla (kinds of the nested statements x break / continue x level x position x bare / inside an if) up to max_nested_statements, interpreted by TLC; non-trivial = more than one printed line or a panic. conv: all conversions of the 12-value rune set / strings of <= MaxPieces well- and ill-formed UTF-8 pieces; non-trivial = a non-ASCII value is involved. initorder: every dependency graph of the bounded spaces, one program per textual order of the dependencies; non-trivial = at least one edge. intalu: TLC-exported space (all kinds x operators x boundary operands x shift counts), each case in the source forms var / literal operand / op-assignment / if-condition; non-trivial = result wrapped, shifted out, divided, converted or panicked. variadic / select / constuse: the spaces of MC_GoMisc.tla, one program per case; non-trivial = nothing or a slice passed for the variadic parameter / every select / the constant used at two types or more. pkginit: every import graph over p, q, r, main (with and without cycles, every order of the import declarations) x drawn decorations, in the source forms separate / grouped import declarations; non-trivial = two packages or more have variables or init functions. godata: the programs prefix ; x ; y of MC_GoData.tla for the ordered pairs (x, y) of the 93 operations of the GoData alphabet, one record per program; non-trivial = the program runs to its end in the reference (no operation panics). One record per (case, form).",
         exhaustive=True,
         samples=[sample(o) for fam in sorted(by_fam) for o in rig.pick_samples(by_fam[fam], 2, ctx.seed)],
     )
@@ -1053,7 +1127,7 @@ def run(ctx, replay_cases=None):
             if o is None or "src" not in o or n >= 12:
                 continue
             n += 1
-            g = gc_raw(ctx, o["src"], n)
+            g = gc_raw(ctx, o["src"], n, strip=b["obs"]["fam"] == "godata")
             checked[sk] = g is not None and g == normalise_scriggo(o["raw"])
             if checked[sk]:
                 disputed.add(sk)
